@@ -282,7 +282,7 @@ class H2Protocol:
                     )
                 else:
                     await self._create_stream(event)
-                    await self.send(Updated(idle=False))
+                    await self.send(Updated(idle=self.idle))
 
                 if self.keep_alive_requests > self.config.keep_alive_max_requests:
                     self.connection.close_connection()
@@ -362,6 +362,17 @@ class H2Protocol:
                 method = value.decode("ascii").upper()
             elif name == b":path":
                 raw_path = value
+
+        try:
+            raw_path.decode("ascii")
+        except UnicodeDecodeError:
+            # The request target must be ASCII (RFC 9113 8.3.1, RFC
+            # 3986), only this stream is at fault.
+            self.connection.reset_stream(
+                request.stream_id, error_code=h2.errors.ErrorCodes.PROTOCOL_ERROR
+            )
+            await self._flush()
+            return
 
         if method == "CONNECT":
             self.streams[request.stream_id] = WSStream(
